@@ -5,6 +5,7 @@ import PqV.Gen.Idl
 import PqV.Gen.Specs
 import PqV.Gen.CallSites
 import PqV.Lemmas.ThriftSerRefine
+import PqV.Lemmas.ThriftReadRefine
 /-!
 # C10 — metadata serialisation is lossless, IDL-conformant and safe for any size
 Table obligations over the REGENERATED tables (IDL, specs/children, call sites).
@@ -122,5 +123,31 @@ example : (PqV.Impl.ThriftSer.specThrift
         (4, .bytes [1, 2, 3])]).weight + 2)
     (.ids [1]) [(1, .int 7), (2, .list [.dict .none [(1, .str [104, 105])], .dict .none [(3, .int (-2))]]), (4, .bytes [1, 2, 3])]).isSome = true := by
   decide +kernel
+
+/-- **write then read through the models of the real code** (`ThriftObject.to_bytes`, then
+    `from_buffer` / `read_thrift`): for every structure with an IDL-level reading `fs` — any nesting —
+    the reader consumes exactly the serialised bytes, leaves what follows untouched and returns
+    `pyOf (.struct fs)`: the same fields in id order, i32 / i64 told apart by the marker the reader
+    rebuilds (`'i32'` / `'i32list'`), binaries as bytes (as text inside lists), lists and nested
+    structs recursively.  Nothing else of the input survives: entries that are `None` or outside the
+    serialiser's loop range do not (the latter is the known finding `field14_dropped`). -/
+theorem read_after_write (m : PqV.Impl.ThriftSer.Marker) (es : List (Nat × PqV.Impl.ThriftSer.PyT))
+    (fs : List (Nat × PqV.Spec.TVal)) (tail : List Nat)
+    (h : PqV.Impl.ThriftSer.specThrift ((PqV.Impl.ThriftSer.PyT.dict m es).weight + 2) m es = some fs) :
+    ∃ out, PqV.Impl.ThriftSer.toBytes (.dict m es) = some out ∧
+      PqV.Impl.ThriftSer.fromBuffer (out ++ tail) = some (PqV.Impl.ThriftSer.pyOf (.struct fs), tail) :=
+  PqV.Impl.ThriftSer.fromBuffer_toBytes m es fs tail h
+
+/-- the reader model inverts the SPECIFICATION encoder on every canonical structure (so it reads what
+    any conforming writer emits for these shapes, not only what fastparquet's serialiser emits) -/
+theorem reader_inverts_spec_encoder (fs : List (Nat × PqV.Spec.TVal)) (hc : PqV.Impl.ThriftSer.canonFields 0 fs = true) (tail : List Nat) :
+    PqV.Impl.ThriftSer.fromBuffer (PqV.Spec.encFields 0 fs ++ tail) = some (PqV.Impl.ThriftSer.pyOf (.struct fs), tail) :=
+  PqV.Impl.ThriftSer.fromBuffer_enc fs hc tail
+
+example : PqV.Impl.ThriftSer.canonFields 0 [(1, .i32 7), (2, .list 12 [.struct [(1, .binary [104, 105])], .struct [(3, .i64 (-2))]]),
+    (4, .binary [1, 2, 3]), (5, .bool true)] = true := by decide +kernel
+example : PqV.Impl.ThriftSer.fromBuffer (PqV.Spec.encFields 0 [(1, .i32 7), (3, .list 8 [.binary [104]]), (5, .bool false)] ++ [9])
+    = some (PqV.Impl.ThriftSer.pyOf (.struct [(1, .i32 7), (3, .list 8 [.binary [104]]), (5, .bool false)]), [9]) :=
+  reader_inverts_spec_encoder _ (by decide +kernel) [9]
 
 end PqV.Props.C10
